@@ -410,6 +410,12 @@ class CallMixin:
             # functional contract: the result *is* this term of the arguments (no fresh symbol)
             res = sp.ev(ast.parse(c.ghost["function"], mode="eval").body)
             res.kind = c.result_kind or res.kind
+            if c.result_cls:
+                res.cls = self.spec_names[c.result_cls]
+            if c.ghost.get("function_facts"):
+                # the (verified) ensures clause holds of the functional result too
+                sp2 = SpecEval(self, {**env, "result": res}, old_env=env, glob=find_function(c.key).glob)
+                s3.assume(sp2.compile_bool(c.returns), fact=True)
         else:
             res = self.contract_result(s3, c, env, node)
         out.append((s3, res))
